@@ -6,7 +6,8 @@ THEOREMS = {
             "readd_is_fresh", "softmax_shares", "softmax_shares_run", "softmax_sum_one", "softmax_share_pos",
             "popularity_normalised", "fit_ends_with_normalize", "partialFit_ends_with_normalize",
             "stat_greedy", "stat_ucb", "stat_softmax", "stat_thompson", "stat_popularity", "stat_random",
-            "fitRec_append", "parallelFitIn_closed"],
+            "fitRec_append", "parallelFitIn_closed",
+            "step_lp", "runHist_lp", "facade_lp_is_trace"],
     "C02": ["lin_statistics", "stat_linear", "gram_accumulates", "k1_counterexample", "k1_lambda_one", "linucb_columns",
             "reshape_rowwise", "squeeze_counterexample", "fitRec_append",
             "toV_mulVec", "toM_matMul", "toM_ident", "inverse_certificate", "beta_unique_solution", "toM_addGram",
@@ -89,7 +90,7 @@ THEOREMS = {
 }
 
 IMPORTS = {
-    "C01": ["MabModel.Props.C01"],
+    "C01": ["MabModel.Props.C01", "MabModel.Props.C01b"],
     "C02": ["MabModel.Props.C02", "MabModel.Props.C02b", "MabModel.Props.C02c"],
     "C03": ["MabModel.Props.C03"],
     "C04": ["MabModel.Props.C04"],
